@@ -274,6 +274,16 @@ func (p *parser) sortName() string {
 		p.next()
 		s += "." + p.next().s
 	}
+	if s == "keyof" && p.isOp("(") {
+		// keyof(m): the key type of the map-typed variable m (for contracts of generic functions)
+		p.next()
+		id := p.next()
+		if id.k != tIdent {
+			p.fail("keyof(variable) expected")
+		}
+		p.expect(")")
+		return "keyof(" + id.s + ")"
+	}
 	if s == "map" && p.isOp("[") {
 		p.next()
 		k := p.sortName()
